@@ -40,6 +40,7 @@ type c03case struct {
 	GapMs   int      `json:"gap_ms,omitempty"`
 	Stream  []string `json:"stream_head,omitempty"`
 	Pair    string   `json:"runs_next_to_another_syncer,omitempty"`
+	OpenTx  bool     `json:"stream_starts_inside_a_transaction,omitempty"`
 }
 
 func genC03cfg(rng *prng.R, cfgIdx int) e2eCfg {
@@ -180,7 +181,7 @@ func compareForward(r resIface, c *c03case, want, got []fwdCmd, strayTx int, las
 }
 
 func runC03e2e(r resIface, c *c03case, rng *prng.R) {
-	cmds := genStream(rng, streamOpts{N: c.N, DBs: c.DBs, Tx: true, Keys: 6, KeyPrefix: prefixesFor(&c.Cfg), StartDB: -1, Lua: true, Sentinel: true, LFs: true})
+	cmds := genStream(rng, streamOpts{N: c.N, DBs: c.DBs, Tx: true, Keys: 6, KeyPrefix: prefixesFor(&c.Cfg), StartDB: -1, Lua: true, Sentinel: true, LFs: true, OpenTx: c.OpenTx})
 	for i := 0; i < len(cmds) && i < 12; i++ {
 		c.Stream = append(c.Stream, cmds[i].String())
 	}
@@ -212,6 +213,9 @@ func runC03e2e(r resIface, c *c03case, rng *prng.R) {
 	got, _, tx := appliedCommands(lg, e.Src.Addr, incrConnOf(lg))
 	r.Case(fmt.Sprintf("e2e|%s|sc%d|ss%d|tdb%d|%s", cfgClass(&c.Cfg), c.Cfg.SenderCount, c.Cfg.SenderSize, c.Cfg.TargetDB, c.Plan))
 	r.Count("streams_e2e", 1)
+	if c.OpenTx {
+		r.Count("streams_starting_inside_a_transaction", 1)
+	}
 	r.Count("source_commands", int64(len(cmds)))
 	r.Count("forwarded_commands", int64(len(wantData)))
 	r.Max("max_flush_latency_ms", lat.Milliseconds())
@@ -250,7 +254,7 @@ func cfgClass(c *e2eCfg) string {
 
 // isolated pair: parser + sender only, in-process connection recording the Send/Flush partition
 func runC03isolated(r resIface, c *c03case, rng *prng.R) {
-	cmds := genStream(rng, streamOpts{N: c.N, DBs: c.DBs, Tx: true, Keys: 6, KeyPrefix: prefixesFor(&c.Cfg), StartDB: c.StartDB, Lua: true, Sentinel: true, LFs: true})
+	cmds := genStream(rng, streamOpts{N: c.N, DBs: c.DBs, Tx: true, Keys: 6, KeyPrefix: prefixesFor(&c.Cfg), StartDB: c.StartDB, Lua: true, Sentinel: true, LFs: true, OpenTx: c.OpenTx})
 	for i := 0; i < len(cmds) && i < 12; i++ {
 		c.Stream = append(c.Stream, cmds[i].String())
 	}
@@ -316,6 +320,9 @@ func runC03isolated(r resIface, c *c03case, rng *prng.R) {
 	}
 	r.Case(fmt.Sprintf("iso|%s|sc%d|ss%d|tdb%d|%s|start%d|part%s", cfgClass(&c.Cfg), c.Cfg.SenderCount, c.Cfg.SenderSize, c.Cfg.TargetDB, c.Plan, c.StartDB, strings.Join(part, ",")))
 	r.Count("streams_isolated", 1)
+	if c.OpenTx {
+		r.Count("streams_starting_inside_a_transaction", 1)
+	}
 	r.Count("source_commands", int64(len(cmds)))
 	r.Count("forwarded_commands", int64(len(wantData)))
 	r.Count("flush_batches_observed", int64(len(flushes)))
@@ -351,6 +358,7 @@ func c03cfgChild(raw json.RawMessage, scratch string) {
 			}
 		}
 		c.StartDB = -1
+		c.OpenTx = i%5 == 2
 		c.Mode = "isolated"
 		if i%3 == 0 && c.Plan != "behind-slow-flush" {
 			c.Mode = "e2e"
@@ -608,6 +616,7 @@ func c03(c *wk.Ctx) {
 	r.Floor("syncer_pairs_run_side_by_side", 40)
 	r.Floor("trickle_commands_timed", 40)
 	r.Floor("streams_idle_inside_a_transaction", 6)
+	r.Floor("streams_starting_inside_a_transaction", 30)
 	r.Floor("flush_batches_observed", 500)
 	r.Floor("forwarded_commands", 5000)
 	r.Assume("reference filter pipeline (lib/reffilter + expectedForward): db filter by SELECT tracking, script commands under filter.lua, sentinel hello, opinfo, MULTI/EXEC markers dropped, key filter per C13; PINGs are stripped from both sides before comparing (the statement does not place them); in the incremental path key decisions exist only for commands in the tool's table")
